@@ -46,15 +46,22 @@ def updateMats (xk gk : Vec α) (X G : List (Vec α)) (maxcor : Nat) (mats : Mat
     (X', G', some (X', G'), true)
   else (X, G, mats, false)
 
+/-- the backward walk of `make_X_and_G_respect_strong_wolfe` over the older points (given in
+chronological order): a point is kept iff it passes the curvature test against the oldest
+point kept so far (the head of the accumulator). -/
+def filterGo (eps : α) : List (Vec α) → List (Vec α) → List (Vec α) × List (Vec α) →
+    List (Vec α) × List (Vec α)
+  | x :: xs, g :: gs, acc =>
+    let r := filterGo eps xs gs acc
+    if curvOk x g (r.1.headD []) (r.2.headD []) eps then (x :: r.1, g :: r.2) else r
+  | _, _, acc => acc
+
 /-- `make_X_and_G_respect_strong_wolfe`: walk from the newest point to the oldest, keep a
-point iff it passes the curvature test against the oldest point kept so far. -/
+point iff it passes the curvature test against the oldest point kept so far. The newest
+point is always kept. -/
 def filterWolfe (X G : List (Vec α)) (eps : α) : List (Vec α) × List (Vec α) :=
-  let go : List (Vec α × Vec α) → List (Vec α) × List (Vec α) → List (Vec α) × List (Vec α) :=
-    fun older acc => older.foldr (fun (p : Vec α × Vec α) (acc : List (Vec α) × List (Vec α)) =>
-      if curvOk p.1 p.2 (acc.1.headD []) (acc.2.headD []) eps then (p.1 :: acc.1, p.2 :: acc.2)
-      else acc) acc
   match X.reverse, G.reverse with
-  | xl :: xs, gl :: gs => go (xs.reverse.zip gs.reverse) ([xl], [gl])
+  | xl :: xs, gl :: gs => filterGo eps xs.reverse gs.reverse ([xl], [gl])
   | _, _ => (X, G)
 
 /-- reversed cumulative sums as `np.cumsum(a[::-1], axis=0)[::-1]` computes them:
